@@ -422,9 +422,14 @@ func (sdb *DbSqlite) initJwtKey() error {
 // before they are compared with each other and with the stored points: an
 // empty key means key "0", and negative zero is stored as zero (SQLite does
 // not keep the sign of a zero, so the hash must not be computed with it).
-func normalizePoints(points data.Points) data.Points {
+// A value that is not a number cannot be stored (SQLite turns it into NULL,
+// which cannot be read back), so such a batch is refused.
+func normalizePoints(points data.Points) (data.Points, error) {
 	ret := make(data.Points, len(points))
 	for i, p := range points {
+		if math.IsNaN(p.Value) {
+			return nil, fmt.Errorf("point %v:%v: value is not a number", p.Type, p.Key)
+		}
 		if p.Key == "" {
 			p.Key = "0"
 		}
@@ -433,11 +438,14 @@ func normalizePoints(points data.Points) data.Points {
 		}
 		ret[i] = p
 	}
-	return ret
+	return ret, nil
 }
 
 func (sdb *DbSqlite) nodePoints(id string, points data.Points) error {
-	points = normalizePoints(points)
+	points, err := normalizePoints(points)
+	if err != nil {
+		return err
+	}
 	points.Collapse()
 
 	sdb.writeLock.Lock()
@@ -578,7 +586,10 @@ NextPin:
 }
 
 func (sdb *DbSqlite) edgePoints(nodeID, parentID string, points data.Points) error {
-	points = normalizePoints(points)
+	points, err := normalizePoints(points)
+	if err != nil {
+		return err
+	}
 	points.Collapse()
 
 	if nodeID == parentID {
@@ -596,7 +607,6 @@ func (sdb *DbSqlite) edgePoints(nodeID, parentID string, points data.Points) err
 	sdb.writeLock.Lock()
 	defer sdb.writeLock.Unlock()
 
-	var err error
 	if parentID == "" {
 		parentID = "root"
 	}
